@@ -367,7 +367,7 @@ def handle : Handler := fun input implFull =>
     match out, isCli with
     | .late _, true =>
       -- the CLI reader does not call factories: accepted; the pools' flags come from the decoded value
-      let r := decode repoFlags env sch (defaultDiscard cfg)
+      let r := decode repoFlags env sch (defaultDiscard (lowerKeys cfg))
       "ok disc=" ++ boolsText (discOf r.val)
     | _, _ => modelObs
   -- expectation
